@@ -98,6 +98,15 @@ class AbstractDissimilarity(metaclass=ABCMeta):
                                      f"Exception found :\n "
                                      f"d({unit}, {unit}) = {self.d_mat(unit, unit)}")
 
+    def _category_index(self, categories: SortedSet, annotation: Optional[str]) -> int:
+        """
+        Index of a unit's annotation among the categories. Unlabelled units (annotation `None`) are given an index
+        no category uses when the dissimilarity has no category table of its own.
+        """
+        if annotation is None and self.categories is None:
+            return len(categories)
+        return categories.index(annotation)
+
     def _build_arrays_continuum(self, continuum: 'Continuum') -> nb.typed.List:
         """
         Builds the compact, array-shaped representation of a continuum.
@@ -123,7 +132,7 @@ class AbstractDissimilarity(metaclass=ABCMeta):
                 unit_array[unit_id][0] = unit.segment.start
                 unit_array[unit_id][1] = unit.segment.end
                 unit_array[unit_id][2] = unit.segment.duration
-                unit_array[unit_id][3] = categories.index(unit.annotation)
+                unit_array[unit_id][3] = self._category_index(categories, unit.annotation)
             unit_arrays.append(unit_array)
         return unit_arrays
 
@@ -152,7 +161,7 @@ class AbstractDissimilarity(metaclass=ABCMeta):
                     alignment_array[i, annotator_i, 0] = unit.segment.start
                     alignment_array[i, annotator_i, 1] = unit.segment.end
                     alignment_array[i, annotator_i, 2] = unit.segment.duration
-                    alignment_array[i, annotator_i, 3] = categories.index(unit.annotation)
+                    alignment_array[i, annotator_i, 3] = self._category_index(categories, unit.annotation)
                 else:
                     alignment_array[i, annotator_i] = np.array([-1, -1, -1, -1], dtype=np.float32)
         return alignment_array
